@@ -1027,7 +1027,7 @@ func rOp5(c *core.Ctx, m *opModel) {
 	c.Rule("R-OP5", "the debug name tables indexed without a bounds test (codeStr[op&Mask], typeStr[n.T]) are longer than the largest opcode / NodeType", 2)
 	syn := c.P.Pkg("syntax")
 	tableLen := func(name string) (int, token.Pos, bool) {
-		v, _ := syn.Types.Scope().Lookup(name).(*types.Var)
+		v, _ := c.P.LookupObj("syntax", name).(*types.Var)
 		if v == nil {
 			return 0, token.NoPos, false
 		}
